@@ -162,6 +162,19 @@ def real_runs(progs, cfgs, trace=True):
         r = res1["%s|async|16|0|0.0|0" % p["name"]]
         p["terminates"] = not (r.get("timeout") or r.get("overflow") or r.get("hang"))
         p["probe_crash"] = r.get("crash")
+    # a probe cut short by the heartbeat (machine load) says nothing about termination: such programs are probed again with a 3 s settle time,
+    # and count as terminating only if that run ends with nobody able to move
+    if trace:
+        unsure = [p for p in progs if p["runnable"] and p.get("terminates") and not p.get("probe_crash")
+                  and premature_quiescence(res1["%s|async|16|0|0.0|0" % p["name"]].get("events") or [], "async")]
+        if unsure:
+            jobs1b = [dict(mk(p, probe, 10000, 8000), id="%s#probe2" % p["name"]) for p in unsure]
+            res1b = vlib.run_jobs(binary, jobs1b, batch=1, timeout=40, parallel=4, extra_env={"VERIF_SETTLE_MS": "3000"})
+            for p in unsure:
+                r = res1b.get("%s#probe2" % p["name"]) or {"timeout": True}
+                p["terminates"] = not (r.get("timeout") or r.get("overflow") or r.get("hang") or r.get("prints") is None
+                                       or premature_quiescence(r.get("events") or [], "async"))
+                p["probe_repeated"] = True
     # phase 2: the configuration matrix for the programs that terminate
     jobs = [mk(p, c, 8000, 30000) for p in progs if p["runnable"] and p.get("terminates")
             for c in (wide_matrix(cfgs, p["name"]) if p.get("wide") else cfgs)]
@@ -621,18 +634,40 @@ def _campaign(tier, seed, extra_progs):
             if e_ and e_["unique"] and not e_["sax_err"] and not e_["sax_left"]:
                 return sorted(e_["bag"])
             return sorted(expect[name_]["bag"]) if name_ in expect else None
+        def deviates(name_, mode_, prints_):
+            ref = refbag(name_)
+            if ref is None:
+                return False
+            if mode_ == "np" and not cfree_.get(name_):
+                # eager copies may only add repetitions (the bound C04 applies to the non-polarized version on programs with contraction)
+                want, got = collections.Counter(ref), collections.Counter(prints_)
+                return set(want) != set(got) or any(got[l] < want[l] for l in want)
+            return sorted(prints_) != ref
+        def stuck(mode_, blocked_):
+            # (C02's reading of the blocked set: in the synchronous version a sender parked after its send is not stuck)
+            return mode_ != "np" and any(mode_ == "async" or b.get("last") != "send" for b in blocked_ or [])
         suspects = [r for r in runs if r["prints"] is not None and not r["crash"] and not r["hang"] and not r["nonterminating"] and not r["late"]
-                    and refbag(r["prog"]) is not None and (r["mode"] != "np" or cfree_.get(r["prog"])) and sorted(r["prints"]) != refbag(r["prog"])]
-        for r in suspects[:40]:
-            jobs = [{"id": "%s#c%d" % (r["id"], k), "text": byname_[r["prog"]]["text"], "mode": r["mode"], "typecheck": True, "execute": True, "monitor": bool(r["monitor"]),
+                    and (deviates(r["prog"], r["mode"], r["prints"]) or stuck(r["mode"], r.get("blocked")))]
+        suspects.sort(key=lambda r: (not stuck(r["mode"], r.get("blocked")), r["id"]))
+        def rerun_jobs(r):
+            return [{"id": "%s#c%d" % (r["id"], k), "text": byname_[r["prog"]]["text"], "mode": r["mode"], "typecheck": True, "execute": True, "monitor": bool(r["monitor"]),
                      "subscriber": bool(r.get("subscriber")), "gomaxprocs": r["gomaxprocs"], "seed": r["seed"] + k + 1, "yield": r["yield"], "trace": True, "dump": False,
-                     "max_ms": 12000, "max_events": 30000} for k in range(3)]
+                     "max_ms": 30000, "max_events": 30000} for k in range(3)]
             # the repetitions wait 3 s without any hook event before they let the interpreter declare quiescence: a process that has not moved by
             # then is stuck, not starved, so the structural "could still move" filter is not applied to them
-            rr = vlib.run_jobs(os.path.join(vlib.BUILD, "vdrive"), jobs, batch=1, timeout=60, parallel=3, extra_env={"VERIF_SETTLE_MS": "3000"})
+        # (three driver processes at a time: the repetitions must not be starved themselves)
+        rrall = vlib.run_jobs(os.path.join(vlib.BUILD, "vdrive"), [j for r in suspects[:60] for j in rerun_jobs(r)], batch=1, timeout=90, parallel=3,
+                              extra_env={"VERIF_SETTLE_MS": "3000"})
+        for r in suspects[:60]:
+            rr = {k: x for k, x in rrall.items() if k.startswith(r["id"] + "#c")}
             valid = [x for x in rr.values() if not x.get("crash") and not x.get("hang") and not x.get("timeout") and not x.get("late")]
             r["reruns"] = len(valid)
-            r["confirm"] = sum(1 for x in valid if sorted(x.get("prints") or []) != refbag(r["prog"])) + sum(1 for x in rr.values() if x.get("crash"))
+            ndev = sum(1 for x in valid if deviates(r["prog"], r["mode"], x.get("prints") or []) or stuck(r["mode"], x.get("blocked"))) + sum(1 for x in rr.values() if x.get("crash"))
+            # confirmed = the deviation shows again in at least two of the three careful repetitions (run one at a time, 3 s settle time)
+            r["confirm"] = 1 if ndev >= 2 else 0
+            r["deviating_reruns"] = ndev
+        for r in suspects[60:]:
+            r["reruns"], r["confirm"], r["unrepeated"] = 0, 0, True      # beyond the repetition budget: not judged by the checks on printed results
         exh = exhaustive(small, work, timeout=300 if tier == "quick" else 1500,
                          expect={n: e["bag"] for n, e in expect.items() if e.get("unique")})
         tm["exhaustive"] = time.time() - t1; t1 = time.time()
@@ -670,6 +705,8 @@ def _campaign(tier, seed, extra_progs):
                 x = rr.get(r["id"] + "#settle") or {}
                 if x.get("hang") or x.get("timeout") or x.get("overflow") or x.get("late") or x.get("prints") is None:
                     continue
+                if not x.get("crash") and premature_quiescence(x.get("events") or [], r["mode"]):
+                    continue      # (still cut short although nothing happened for 3 s: left unjudged)
                 r["premature"] = False
                 r["resettled"] = True
                 r["crash"] = x.get("crash")
